@@ -60,6 +60,8 @@ type Config struct {
 	WALTruncate                                                             bool // truncate the WAL tail on restart
 	ArmedCrashes                                                            bool // crash before the k-th durable write instead of "now"
 	Partition                                                               bool
+	Attack                                                                  string // "split": a coordinated equivocation attack (see attack.go)
+	Sides                                                                   []int  // split attack: side (0/1) of every validator id
 	ValChanges                                                              bool
 	Script                                                                  string
 	Compensate                                                              bool // supply the proposer cache after a reload (finding F1)
@@ -155,6 +157,8 @@ type Node struct {
 }
 
 type World struct {
+	sideOf map[string]int // split attack: item id / part-set hash -> the side a Byzantine artefact is meant for
+
 	T   *testing.T
 	Cfg Config
 	Rng *simrt.Rand
